@@ -39,7 +39,7 @@ theorem secsAct_header (g f : Fields) (t : List QFeature) (o : OriginV) (r : Reg
     (hd : distinctKeys g.dblink = true) (h0 : f.dblink = [] ∧ f.references = [] ∧ f.comments = [] ∧ f.extra = []) :
     secsAct (headerSecs g) (f, t, o, r) =
       ({ f with definition := g.definition, accession := accessionLine g, version := g.version, dblink := g.dblink,
-                keywords := g.keywords, species := wrapSpace g.species, organism := g.organism, taxon := g.taxon,
+                keywords := g.keywords, species := g.species, organism := g.organism, taxon := g.taxon,
                 references := g.references, comments := g.comments, extra := g.extra }, t, o, r) := by
   obtain ⟨h1, h2, h3, h4⟩ := h0
   unfold headerSecs
@@ -98,7 +98,7 @@ def locusLength (f : Fields) (p : Bytes) : Int := if p.isEmpty then contigLen f 
 /-- the header part of the domain -/
 def headerOk (f : Fields) : Bool :=
   noCR f.definition && noEOL (accessionLine f) && noEOL f.version &&
-  f.dblink.all pairOk && distinctKeys f.dblink && listOk f.keywords && noCR (wrapSpace f.species) &&
+  f.dblink.all pairOk && distinctKeys f.dblink && listOk f.keywords && noCR f.species &&
   organismOk f.organism && taxonOk f.taxon && f.references.all referenceOk && f.comments.all noCR &&
   f.extra.all fun e => WritableExtra e.1 e.2 && extraNameOk e.1
 
@@ -268,10 +268,10 @@ theorem parse_chain (L : Int) (A B : List Section) (hA : ∀ x ∈ A, SecOK L x)
 theorem asTopology_text (t : Int) (h : t = 0 ∨ t = 1) : asTopology (topologyText t) = some t := by
   rcases h with rfl | rfl <;> decide
 
-/-- the record that comes back: the REGION suffix in the accession (K1A), the species as wrapped
-(K1C), toggle values as `\n` (K1D, inside `readFeature`), the residues as the formatted block -/
+/-- the record that comes back: the REGION suffix in the accession and no region (K1A), the
+residues as the formatted block; everything else as written -/
 def readBack (reg : Registry) (r : Record) (p : Bytes) : Record :=
-  ⟨{ r.fields with accession := accessionLine r.fields, species := wrapSpace r.fields.species, region := none },
+  ⟨{ r.fields with accession := accessionLine r.fields, region := none },
    r.table.map (readFeature reg),
    if p.isEmpty then .buffer [] else .buffer (Origin.originStream p)⟩
 
